@@ -48,6 +48,19 @@ def assoc_fieldset():
     return _EXTRA['afs']
 
 
+_WORK = {}
+
+
+def _work(name, values):
+    """The caller's work buffer for one field: ONE array per field name, refilled for every trajectory (a
+    producer reusing its buffers). The library must have taken its own copy when the value was assigned."""
+    buf = _WORK.get(name)
+    if buf is None or buf.shape != values.shape:
+        buf = _WORK[name] = np.empty_like(values)
+    buf[...] = values
+    return buf
+
+
 def make_traj(k, identified, kind='good', layout='single'):
     """Trajectory number k (k = number of add attempts so far): every value encodes k."""
     from AEIC.trajectories.trajectory import Trajectory
@@ -65,7 +78,7 @@ def make_traj(k, identified, kind='good', layout='single'):
             'true_airspeed', 'ground_speed',
         ]
     ):  # fmt: skip
-        setattr(t, name, base + j + np.arange(NPTS) * 0.25)
+        setattr(t, name, _work(name, base + j + np.arange(NPTS) * 0.25))
     t.starting_mass = base
     t.total_fuel_mass = base + 0.5
     t.n_climb = 1
@@ -84,7 +97,7 @@ def make_traj(k, identified, kind='good', layout='single'):
         from AEIC.types import Species, SpeciesValues
 
         t.add_fields(assoc_fieldset())
-        t.ap = 5000.0 + k + np.arange(NPTS) * 0.125
+        t.ap = _work('ap', 5000.0 + k + np.arange(NPTS) * 0.125)
         sp = {Species.CO2: 70.0 + k}
         if kind == 'bad_species':
             sp[Species.NOx] = 1.0  # a species the associated file has no slot for
